@@ -537,6 +537,10 @@ func (j *jsonReader) Interval(tag int) (time.Duration, error) {
 		if err != nil {
 			return 0, err
 		}
+		// Check interval bounds: a TTLV interval is an unsigned 32 bits number of seconds
+		if n < 0 || n > math.MaxUint32 {
+			return 0, Errorf("interval is out of bound")
+		}
 		return time.Duration(n) * time.Second, j.Next()
 	case string:
 		parsed, err := parseUint(val, 32)
